@@ -222,9 +222,11 @@ func c15Equal(c *Ctx) {
 	}
 }
 
-func c15Repo(c *Ctx) {
+func c15Repo(c *Ctx) { c15RepoRules(c, "C15/R4") }
+
+func c15RepoRules(c *Ctx, rule string) {
 	r := c.R
-	del := c.Fn("C15/R4", pkgOpRepo, "BaseOperationRepo", "DeleteOperation")
+	del := c.Fn(rule, pkgOpRepo, "BaseOperationRepo", "DeleteOperation")
 	if del != nil {
 		sets := ssax.Calls(del, false, func(ci ssa.CallInstruction) bool { o := ssax.CalleeObj(ci); return o != nil && o.Name() == "Set" })
 		var tomb, pool ssa.CallInstruction
@@ -237,15 +239,15 @@ func c15Repo(c *Ctx) {
 			}
 		}
 		if tomb == nil || pool == nil {
-			r.Unknown("C15/R4", "operation.DeleteOperation:writes", "DeleteOperation writes the tombstone list and the pool", c.Pos(del.Pos()), "writes not recognised")
+			r.Unknown(rule, "operation.DeleteOperation:writes", "DeleteOperation writes the tombstone list and the pool", c.Pos(del.Pos()), "writes not recognised")
 		} else {
 			tOK := ssax.NilErrEdgesOfCall(del, tomb)
-			r.Check(len(tOK) > 0 && !ssax.ReachableAvoiding(del, pool, tOK, nil), "C15/R4", "operation.DeleteOperation:tombstone-first", "the tombstone is durable before the pool is rewritten", c.PosOf(pool), "pool rewrite reachable without a successful tombstone write")
+			r.Check(len(tOK) > 0 && !ssax.ReachableAvoiding(del, pool, tOK, nil), rule, "operation.DeleteOperation:tombstone-first", "the tombstone is durable before the pool is rewritten", c.PosOf(pool), "pool rewrite reachable without a successful tombstone write")
 			nf := mapLookupEdges(del, "getDeletedOperations()", false)
-			r.Check(len(nf) > 0 && !ssax.ReachableAvoiding(del, tomb, nf, nil), "C15/R4", "operation.DeleteOperation:refuse-retired", "an id that already has a tombstone is refused", c.PosOf(tomb), "tombstone write reachable without the not-yet-deleted test")
+			r.Check(len(nf) > 0 && !ssax.ReachableAvoiding(del, tomb, nf, nil), rule, "operation.DeleteOperation:refuse-retired", "an id that already has a tombstone is refused", c.PosOf(tomb), "tombstone write reachable without the not-yet-deleted test")
 		}
 	}
-	if get := c.Fn("C15/R4", pkgOpRepo, "BaseOperationRepo", "GetOperations"); get != nil {
+	if get := c.Fn(rule, pkgOpRepo, "BaseOperationRepo", "GetOperations"); get != nil {
 		// every insertion into the returned map is guarded by "id not in deletedOperations"
 		nf := mapLookupEdges(get, "getDeletedOperations()", false)
 		n := 0
@@ -269,14 +271,14 @@ func c15Repo(c *Ctx) {
 				}
 			}
 		}
-		r.Check(n >= 1 && !bad && retOK, "C15/R4", "operation.GetOperations:tombstone-filter", "the pool view excludes every id that has a tombstone (a retired operation never comes back)", c.Pos(get.Pos()),
+		r.Check(n >= 1 && !bad && retOK, rule, "operation.GetOperations:tombstone-filter", "the pool view excludes every id that has a tombstone (a retired operation never comes back)", c.Pos(get.Pos()),
 			sprintf("filtered insertions=%d, unguarded=%v, returns-filtered-map=%v: a re-issued or crash-leftover entry of a retired id would be pending again and could be answered twice", n, bad, retOK))
 	}
-	if put := c.Fn("C15/R4", pkgOpRepo, "BaseOperationRepo", "PutOperation"); put != nil {
+	if put := c.Fn(rule, pkgOpRepo, "BaseOperationRepo", "PutOperation"); put != nil {
 		uses := len(ssax.CallsTo(put, load.Module+"/"+pkgOpRepo+".(BaseOperationRepo).GetOperations")) > 0
-		r.Check(uses, "C15/R4", "operation.PutOperation:reads-filtered-pool", "PutOperation works on the tombstone-filtered view", c.Pos(put.Pos()), "PutOperation does not read the pool through GetOperations")
+		r.Check(uses, rule, "operation.PutOperation:reads-filtered-pool", "PutOperation works on the tombstone-filtered view", c.Pos(put.Pos()), "PutOperation does not read the pool through GetOperations")
 	}
-	if byID := c.Fn("C15/R4", pkgOpRepo, "BaseOperationRepo", "GetOperationByID"); byID != nil {
+	if byID := c.Fn(rule, pkgOpRepo, "BaseOperationRepo", "GetOperationByID"); byID != nil {
 		uses := len(ssax.CallsTo(byID, load.Module+"/"+pkgOpRepo+".(BaseOperationRepo).GetOperations")) > 0
 		okE := mapLookupEdges(byID, "GetOperations()", true)
 		good := uses && len(okE) > 0
@@ -285,7 +287,7 @@ func c15Repo(c *Ctx) {
 				good = false
 			}
 		}
-		r.Check(good, "C15/R4", "operation.GetOperationByID:pending-only", "lookup by id succeeds only for an id present in the tombstone-filtered pool", c.Pos(byID.Pos()), "success return not guarded by the filtered-pool lookup")
+		r.Check(good, rule, "operation.GetOperationByID:pending-only", "lookup by id succeeds only for an id present in the tombstone-filtered pool", c.Pos(byID.Pos()), "success return not guarded by the filtered-pool lookup")
 	}
 }
 
